@@ -17,6 +17,20 @@ fn errs_json(v: &[swift_mt_message::errors::SwiftValidationError]) -> Vec<Value>
     v.iter().map(|e| serde_json::to_value(e).unwrap_or(Value::Null)).collect()
 }
 
+fn vjson<T: SwiftMessageBody + serde::de::DeserializeOwned>(raw: &str) -> Value {
+    match serde_json::from_str::<T>(raw) {
+        Ok(m) => {
+            let full = m.validate_network_rules(false);
+            let stop = m.validate_network_rules(true);
+            let full2 = m.validate_network_rules(false);
+            json!({"ok": true, "json": serde_json::to_value(&m).unwrap_or(Value::Null),
+                   "rules_json": errs_json(&full), "rules_stop_json": errs_json(&stop), "rules_json_again": errs_json(&full2),
+                   "mt": m.to_mt_string()})
+        }
+        Err(e) => json!({"ok": false, "display": e.to_string()}),
+    }
+}
+
 fn describe<T: SwiftMessageBody>(m: &SwiftMessage<T>) -> Value {
     let before = format!("{:?}", m);
     let full = m.fields.validate_network_rules(false);
@@ -104,6 +118,14 @@ pub fn run(rt: &tokio::runtime::Runtime, cols: &[&str]) -> Value {
                 Err(e) => return json!({"bad_case": e}),
             };
             with_mt!(cols[1], T => typed::<T>(&raw), json!({"bad_case": "unknown type"}))
+        }
+        // vjson <MTnnn> <hex JSON of the message body>: serde_json::from_str::<T>, then validate_network_rules on the value
+        "vjson" => {
+            let raw = match unhex_str(cols[2]) {
+                Ok(s) => s,
+                Err(e) => return json!({"bad_case": e}),
+            };
+            with_mt!(cols[1], T => vjson::<T>(&raw), json!({"bad_case": "unknown type"}))
         }
         // auto <hex raw message>
         "auto" => {
